@@ -29,9 +29,15 @@ def sanitize_python_code(expr: str) -> str:
     (by backticks) are properly handled.
     """
     aliases: dict[str, str] = {}
-    expr = format_expr(
-        sanitize_variable_names(expr, {}, aliases, template="_formulaic_{}")
-    )
+    try:
+        expr = format_expr(
+            sanitize_variable_names(expr, {}, aliases, template="_formulaic_{}")
+        )
+    except (RecursionError, MemoryError, UnicodeError) as e:
+        # The Python parser gives up on code that is nested too deeply or that
+        # cannot be encoded as source; report that like any other code that it
+        # cannot parse.
+        raise SyntaxError(f"Python code could not be parsed: {e}") from e
     if aliases:
         # One pass over whole words, so that neither longer identifiers nor the
         # restored names themselves are rewritten.
